@@ -32,7 +32,7 @@ PROPS["C15"] = dict(
                 "kernel-checked, no floating-point error bounds are proved."),
     level_note=("coeffs[], ptrs[], series order, the aux enum and both radius polynomials regenerated from AuxLatitude.cpp/.hpp each run; hand-written models of the "
                 "Ellipsoid.hpp inline functions and of fillcoeff/Clenshaw; harness oracles in x87 long double / __float128 (libquadmath), independent of the library; "
-                "open findings F24-F28 (accuracy losses in stated argument classes, NaN for denormal tangents) are printed as KNOWN-FINDING"),
+                "open findings F38-F42 (accuracy losses in stated argument classes, NaN for denormal tangents) are printed as KNOWN-FINDING"),
     technique="Lean 4 series-CAS certificates (decide +kernel) for the extracted tables + exact-real theorems on executable formula models + quadrature-oracle correspondence",
     assumptions=["the closed forms / differential equations used as specifications of the latitudes are the textbook definitions (Karney 2024, eqs. for beta, theta, mu, chi, xi)",
                  "truncation of the order-L series is bounded by 4 x the last retained coefficients (growth allowance) - used only as a tolerance"],
